@@ -96,6 +96,30 @@ Complete(l) ==
         ELSE /\ call' = call1 /\ UNCHANGED <<ncalls, result, stage>>
   /\ UNCHANGED sc
 
+(* All running sub-calls (at least two) return at the same instant: the request collects them in an order nobody    *)
+(* controls.  Whatever that order is, the outcome is the one of completing them one after the other (a failure among *)
+(* them decides for an error; otherwise the last success starts phase 2 or makes the request succeed).  The driver   *)
+(* lets the real sub-calls leave a barrier together, several times per behaviour: this is where unsynchronised       *)
+(* collection of the results shows.                                                                                  *)
+CompleteAll ==
+  /\ Cardinality(Running) >= 2
+  /\ LET outs == [l \in Ledgers |-> IF call[l] = "running" THEN (IF l \in sc.fail THEN "failed" ELSE "ok") ELSE call[l]]
+         anyFail == \E l \in Running : l \in sc.fail
+         p1done == \A k \in Phase1(sc) : k \in sc.reg /\ outs[k] = "ok"
+     IN IF result # "none"
+        THEN /\ call' = outs /\ UNCHANGED <<ncalls, result, stage>>
+        ELSE IF anyFail
+        THEN /\ call' = outs /\ result' = "err" /\ UNCHANGED <<ncalls, stage>>
+        ELSE IF stage = "phase1" /\ p1done /\ Phase2(sc) # {}
+        THEN /\ call' = [k \in Ledgers |-> IF k \in Phase2(sc) /\ k \in sc.reg THEN "running" ELSE outs[k]]
+             /\ ncalls' = [k \in Ledgers |-> IF k \in Phase2(sc) /\ k \in sc.reg THEN ncalls[k] + 1 ELSE ncalls[k]]
+             /\ stage' = "phase2"
+             /\ result' = IF Phase2(sc) \ sc.reg # {} THEN "err" ELSE "none"
+        ELSE IF stage = "phase1" /\ p1done /\ Phase2(sc) = {}
+        THEN /\ call' = outs /\ result' = "ok" /\ UNCHANGED <<ncalls, stage>>
+        ELSE /\ call' = outs /\ UNCHANGED <<ncalls, result, stage>>
+  /\ UNCHANGED sc
+
 (* phase 1 may be empty for an egoistic funder with a single ledger: then phase 2 starts at once *)
 InvokeEgoOnly ==
   /\ stage = "idle" /\ ~HasPlain(sc.assets) /\ Phase1(sc) = {} /\ Phase2(sc) # {}
@@ -106,6 +130,7 @@ InvokeEgoOnly ==
 Next == \/ Invoke
         \/ InvokeEgoOnly
         \/ \E l \in Ledgers : Complete(l)
+        \/ CompleteAll
 Spec == Init /\ [][Next]_vars
 
 Used == IF HasPlain(sc.assets) THEN {} ELSE Phase1(sc) \cup Phase2(sc)
